@@ -16,6 +16,8 @@ typedef struct target {
     volatile int helper_ran;
     /* joiner */
     int jkind, jpool, when, use_join_first, group; /* group >= 0: joined with the _many variant */
+    int revive; /* the joiner revives the joined unit once, joins the second life, then frees */
+    volatile int second_started, second_finished;
     volatile int joined;
     int ticks_at_join;
 } target;
@@ -84,6 +86,20 @@ static void target_fn(void *arg)
     }
 }
 
+static void second_life_fn(void *arg)
+{
+    target *t = (target *)arg;
+    t->second_started++;
+    for (int i = 0; i < (t->yields & 3); i++) {
+        if (t->is_task)
+            sim_yield();
+        else
+            ABT_OK(ABT_thread_yield());
+    }
+    t->second_finished++;
+    sim_progress();
+}
+
 static void check_joined(target *t, const char *api)
 {
     if (t->behaviour != B_CANCELLED) {
@@ -131,6 +147,26 @@ static void do_join(target *t, int joiner_is_ult)
         /* joining again must return at once */
         ABT_OK(ABT_thread_join(t->th));
         check_state_terminated(t, "second ABT_thread_join");
+        if (t->revive) {
+            /* a second life of the same work unit (whatever ended the first one: return, exit,
+             * cancellation before or after it started): the join waits for it just the same */
+            if (t->is_task)
+                ABT_OK(ABT_task_revive(S.rt.pools[t->pool], second_life_fn, t, &t->th));
+            else
+                ABT_OK(ABT_thread_revive(S.rt.pools[t->pool], second_life_fn, t, &t->th));
+            if (t->yields & 4) {
+                if (joiner_is_ult)
+                    ABT_OK(ABT_thread_yield());
+                else
+                    sim_yield();
+            }
+            ABT_OK(ABT_thread_join(t->th));
+            SIM_CHECK(t->second_started == 1 && t->second_finished == 1, "join:returned-before-termination",
+                      "ABT_thread_join of the revived target %d returned, but its second life has started %d times and finished %d times", t->id, t->second_started, t->second_finished);
+            check_state_terminated(t, "ABT_thread_join of the revived unit");
+            sim_count("c03.revived_targets_joined_again", 1);
+            sim_progress();
+        }
     }
     if (t->is_task)
         ABT_OK(ABT_task_free(&t->th));
@@ -262,9 +298,10 @@ static void run_c03(void)
             j = 0;
         t->jkind = jkind[j];
         t->group = j;
+        t->revive = t->use_join_first && jkind[j] != J_TASKLET && plan_n(3) == 0;
         JN[j].targets[JN[j].ntargets++] = i;
         sim_note("[%s%d %s@%d y%d joined-by %s#%d %s%s] ", t->is_task ? "T" : "U", i, bn[t->behaviour], t->pool, t->yields, jn[jkind[j]], j,
-                 t->when == W_BEFORE ? "early" : t->when == W_DURING ? "mid" : "late", t->use_join_first ? " join+free" : " free");
+                 t->when == W_BEFORE ? "early" : t->when == W_DURING ? "mid" : "late", t->revive ? " join+revive+join+free" : t->use_join_first ? " join+free" : " free");
     }
     for (int j = 0; j < njoiners; j++) {
         /* the _many variants: all targets of that joiner must be ULTs without special timing */
